@@ -2554,3 +2554,72 @@ mod tests {
         assert_eq!(relation.to_string(), "samba [amd64 i386]");
     }
 }
+
+/// Verification hook (feature `verif-hooks`, off by default): dump the private syntax tree of
+/// a relations field / entry / relation as an s-expression `(KIND child ...)` with tokens
+/// written `KIND:x<hex of text>`. Add-only; used by the out-of-tree correspondence harness.
+#[cfg(feature = "verif-hooks")]
+mod verif_hooks {
+    use super::{Entry, Relation, Relations, SyntaxNode};
+
+    fn dump(node: &SyntaxNode, out: &mut String) {
+        out.push('(');
+        out.push_str(&format!("{:?}", node.kind()));
+        for c in node.children_with_tokens() {
+            out.push(' ');
+            match c {
+                rowan::NodeOrToken::Node(n) => dump(&n, out),
+                rowan::NodeOrToken::Token(t) => {
+                    out.push_str(&format!("{:?}:x", t.kind()));
+                    for b in t.text().bytes() {
+                        out.push_str(&format!("{:02x}", b));
+                    }
+                }
+            }
+        }
+        out.push(')');
+    }
+
+    impl Relations {
+        /// Dump the syntax tree (verification hook).
+        pub fn verif_dump(&self) -> String {
+            let mut s = String::new();
+            dump(&self.0, &mut s);
+            s
+        }
+    }
+
+    impl Entry {
+        /// Dump the syntax tree (verification hook).
+        pub fn verif_dump(&self) -> String {
+            let mut s = String::new();
+            dump(&self.0, &mut s);
+            s
+        }
+
+        /// Dump the tree of the root this entry currently belongs to (verification hook).
+        pub fn verif_dump_root(&self) -> String {
+            let mut s = String::new();
+            let root = self.0.ancestors().last().unwrap();
+            dump(&root, &mut s);
+            s
+        }
+    }
+
+    impl Relation {
+        /// Dump the syntax tree (verification hook).
+        pub fn verif_dump(&self) -> String {
+            let mut s = String::new();
+            dump(&self.0, &mut s);
+            s
+        }
+
+        /// Dump the tree of the root this relation currently belongs to (verification hook).
+        pub fn verif_dump_root(&self) -> String {
+            let mut s = String::new();
+            let root = self.0.ancestors().last().unwrap();
+            dump(&root, &mut s);
+            s
+        }
+    }
+}
